@@ -918,7 +918,10 @@ class unreach (packet_base, unpack_new_adapter):
     from .ipv6 import ipv6
     # xxx We're assuming this is IPv6!
     if dlen >= 8 + ipv6.MIN_LEN:
-      self.next = ipv6(raw=raw[unreach.MIN_LEN:],prev=self)
+      try:
+        self.next = ipv6(raw=raw[unreach.MIN_LEN:],prev=self)
+      except RecursionError: # Errors quoting errors quoting ...
+        self.next = raw[unreach.MIN_LEN:]
     else:
       self.next = raw[unreach.MIN_LEN:]
 
